@@ -223,6 +223,34 @@ def do_lib_op(op, S):
     root = os.path.join(S, "top")
     mpath = os.path.join(S, "m.torrent")
     try:
+        if op.startswith(("rebuild:rel:", "create:relp:")):
+            # relative arguments from a working directory of its own: the
+            # same spelling means another place after a chdir
+            wname = op.split(":")[2]
+            wd = os.path.join(S, wname)
+            old = os.getcwd()
+            os.makedirs(wd)
+            try:
+                if op.startswith("create:relp:"):
+                    shutil.copytree(root, os.path.join(wd, "p"))
+                    if wname != "w1":
+                        with open(os.path.join(wd, "p", "extra"), "wb") as f:
+                            f.write(b"extra")
+                    os.chdir(wd)
+                    tf.torrent.TorrentFile(path="p", piece_length=P0,
+                                           outfile="o.torrent",
+                                           progress=0).write()
+                    with open("o.torrent", "rb") as f:
+                        return ("metafile", strip_date(f.read()))
+                os.chdir(wd)
+                os.mkdir("out")
+                n = tf.rebuild.Assembler(
+                    [os.path.relpath(mpath, wd)],
+                    [os.path.relpath(root, wd)], "out").assemble_torrents()
+                return ("rebuilt", n, canon_sandbox(os.path.join(wd, "out")))
+            finally:
+                os.chdir(old)
+                shutil.rmtree(wd, ignore_errors=True)
         if op.startswith("create:"):
             v = op.split(":")[1]
             if op.endswith(":solo"):
@@ -458,6 +486,14 @@ class HistoryCheck:
         out.append(["create:cfg:full", "create:cfg:bare"])
         out.append(["create:cfg:bare", "create:cfg:full", "create:cfg:bare"])
         out.append(["create:cfg:full", "create:1", "create:cfg:bare"])
+        # relative arguments before and after a change of working directory
+        for c in ("create:1", "create:2", "create:3"):
+            out.append([c, "rebuild:rel:w1", "rebuild:rel:w2"])
+            out.append([c, "rebuild:rel:w2", "rebuild:rel:w1"])
+            out.append([c, "rebuild", "rebuild:rel:w1"])
+        out.append(["create:relp:w1", "create:relp:w2"])
+        out.append(["create:relp:w2", "create:relp:w1"])
+        out.append(["create:relp:w1", "create:relp:w2", "create:relp:w1"])
         out.append(["create:listarg", "create:listarg"])
         out.append(["create:listarg", "add:n", "create:listarg"])
         return out
